@@ -42,6 +42,7 @@ type dscenario struct {
 	procEnv     []string // production-stack runs: extra environment of the process
 	panDirtyBy  string   // PAN-OS: candidate configuration carries uncommitted changes of this admin
 	panRunning  string   // PAN-OS: running configuration if it differs from the candidate ("" = same)
+	infoFor     string   // IOS: accepted commands with this prefix are answered with an INFO: line
 	prepNoop    bool     // IOS: the preparation commands change nothing (settings already there), so 'reload in' does not ask to save
 }
 
@@ -132,7 +133,7 @@ func runDialogue(scr *core.Scratch, sc *dscenario, o runOpts) *drun {
 		flavor := strings.ToLower(sc.devType)
 		ssh = &sim.SSH{Flavor: flavor, Hostname: host, Banner: sc.banner, Pass: sc.secretPass(),
 			Cisco: ciscomodel.Load(sc.device, sc.devType == "IOS"), Dev: o.dev, Banners: o.banners, BannersByText: o.bannersByText,
-			NeedEnable: sc.needEnable, HostKeyQ: sc.hostKeyQ, PrepNoop: sc.prepNoop}
+			NeedEnable: sc.needEnable, HostKeyQ: sc.hostKeyQ, PrepNoop: sc.prepNoop, InfoFor: sc.infoFor}
 		r.before = ssh.Cisco.Print()
 	case "Linux":
 		lm, err := linuxmodel.Load(sc.device)
